@@ -1,5 +1,6 @@
 (* The optimized candidate finders of runner.go (C03): executable models, written line by line from
-   the Go code (line numbers: runner.go at /repo commit 882062c unless another file is named).
+   the Go code (line numbers: runner.go at /repo commit f63ffa6 unless another file is named;
+   the landmark-chain finder is modelled after the repairs 573b074, 563c473, 5218d84).
 
      fd_should_use_optimized          runner.go:1468-1495  shouldUseFindFirstCharOptimized
      fd_find_first_char_optimized     runner.go:1497-1529  findFirstCharOptimized (dispatch on FindMode)
@@ -492,59 +493,76 @@ Fixpoint fd_run_fwd (k : nat) (f : Z -> bool) (start end_at max_repeat e : Z) : 
             then fd_run_fwd k' f start end_at max_repeat (e + 1) else e
   end.
 
-(* ---- runner.go:1802 requiredLandmarkAlternativeMatch (input = r.Runtext) ---- *)
+(* 1872-1875: for e := shortest; e <= end && e < endAt && !found; e++ { found = ws.CharIn(input[e]) } *)
+Fixpoint fd_ws_after (k : nat) (f : Z -> bool) (e_max end_at e : Z) : bool :=
+  match k with
+  | O => false
+  | S k' => if (e <=? e_max) && (e <? end_at)
+            then (if f (nth (Z.to_nat e) text 0) then true else fd_ws_after k' f e_max end_at (e + 1))
+            else false
+  end.
+
+(* ---- runner.go:1836 requiredLandmarkAlternativeMatch (input = r.Runtext), in its four steps ---- *)
+(* 1837-1840: required whitespace before the core is missing *)
+Definition fd_alt_before_bad (start : Z) (alt : fdalt) : res bool :=
+  if la_req_before alt then
+    if start =? 0 then Ok true
+    else match la_lead_ws alt with
+         | None => Ok true
+         | Some ws => do c <- fd_rune_at (start - 1) ; Ok (negb (set_in ws c))
+         end
+  else Ok false.
+
+(* 1842-1862: the core: Some end | None *)
+Definition fd_alt_core (start end_at : Z) (alt : fdalt) : res (option Z) :=
+  match la_literal alt with
+  | _ :: _ =>                                                        (* 1843-1847 *)
+      if end_at <? start + zlen (la_literal alt) then Ok None
+      else do sl <- fd_slice_from start ;
+           do b <- fd_starts_with sl (la_literal alt) ;
+           if b then Ok (Some (start + zlen (la_literal alt))) else Ok None
+  | [] =>
+      match la_set alt with
+      | Some sid =>
+          if 0 <? la_min alt then                                    (* 1848-1859 *)
+            let max_repeat := if la_max alt <=? 0 then la_min alt else la_max alt in
+            let e := fd_run_fwd (Z.to_nat (end_at - start)) (set_in sid) start end_at max_repeat start in
+            if e - start <? la_min alt then Ok None else Ok (Some e)
+          else Ok None                                               (* 1860-1862 *)
+      | None => Ok None                                              (* 1860-1862 *)
+      end
+  end.
+
+(* 1864-1879: required whitespace after the core is missing ([e] = end of the literal / of the longest run) *)
+Definition fd_alt_after_bad (start end_at e : Z) (alt : fdalt) : bool :=
+  if la_req_after alt then
+    let shortest := match la_literal alt with [] => start + la_min alt | _ => e end in   (* 1867-1870 *)
+    negb (match la_trail_ws alt with
+          | Some ws => fd_ws_after (Z.to_nat (e - shortest + 1)) (set_in ws) e end_at shortest   (* 1871-1874 *)
+          | None => false                                            (* found stays false *)
+          end)
+  else false.
+
 Definition fd_landmark_alt_match (start end_at : Z) (alt : fdalt) : res (option fdlm) :=
-  do before_bad <-                                                   (* 1803-1806 *)
-    (if la_req_before alt then
-       if start =? 0 then Ok true
-       else match la_lead_ws alt with
-            | None => Ok true
-            | Some ws => do c <- fd_rune_at (start - 1) ; Ok (negb (set_in ws c))
-            end
-     else Ok false) ;
+  do before_bad <- fd_alt_before_bad start alt ;
   if before_bad then Ok None
   else
-    do core <-                                                       (* Some end | None *)
-      (match la_literal alt with
-       | _ :: _ =>                                                   (* 1809-1813 *)
-           if end_at <? start + zlen (la_literal alt) then Ok None
-           else do sl <- fd_slice_from start ;
-                do b <- fd_starts_with sl (la_literal alt) ;
-                if b then Ok (Some (start + zlen (la_literal alt))) else Ok None
-       | [] =>
-           match la_set alt with
-           | Some sid =>
-               if 0 <? la_min alt then                               (* 1814-1825 *)
-                 let max_repeat := if la_max alt <=? 0 then la_min alt else la_max alt in
-                 let e := fd_run_fwd (Z.to_nat (end_at - start)) (set_in sid) start end_at max_repeat start in
-                 if e - start <? la_min alt then Ok None else Ok (Some e)
-               else Ok None                                          (* 1826-1828 *)
-           | None => Ok None                                         (* 1826-1828 *)
-           end
-       end) ;
+    do core <- fd_alt_core start end_at alt ;
     match core with
     | None => Ok None
     | Some e =>
-        do after_bad <-                                              (* 1830-1833 *)
-          (if la_req_after alt then
-             if end_at <=? e then Ok true
-             else match la_trail_ws alt with
-                  | None => Ok true
-                  | Some ws => do c <- fd_rune_at e ; Ok (negb (set_in ws c))
-                  end
-           else Ok false) ;
-        if after_bad then Ok None
+        if fd_alt_after_bad start end_at e alt then Ok None
         else
-          let match_start :=                                         (* 1835-1838 *)
+          let match_start :=                                         (* 1881-1884 *)
             match la_lead_ws alt with
             | Some ws => fd_walk_back (Z.to_nat start) (set_in ws) 0 start
             | None => start
             end in
-          let e' := match la_literal alt with [] => start + la_min alt | _ => e end in   (* 1839-1844 *)
-          Ok (Some {| lm_start := match_start; lm_core_start := start; lm_end := e' |})  (* 1845 *)
+          let e' := match la_literal alt with [] => start + la_min alt | _ => e end in   (* 1885-1890 *)
+          Ok (Some {| lm_start := match_start; lm_core_start := start; lm_end := e' |})  (* 1891 *)
     end.
 
-(* 1793-1797: the first alternative that matches at i *)
+(* 1828-1832: the first alternative that matches at i *)
 Fixpoint fd_first_alt_at (i end_at : Z) (alts : list fdalt) : res (option fdlm) :=
   match alts with
   | [] => Ok None
@@ -568,16 +586,32 @@ Fixpoint fd_find_next_landmark (k : nat) (i end_at : Z) (alts : list fdalt) : re
 Definition fd_next_landmark (start_at : Z) (alts : list fdalt) : res (option fdlm) :=
   fd_find_next_landmark (Z.to_nat (fd_n - start_at)) start_at fd_n alts.
 
-(* 1757-1764: the remaining landmarks, each searched from the end of the previous one;
-   false = some landmark is missing *)
+(* ---- runner.go:1793 requiredLandmarkMinWidth ---- *)
+Fixpoint fd_min_width_acc (alts : list fdalt) (width : Z) : Z :=
+  match alts with
+  | [] => width
+  | a :: rest =>
+      let w := match la_literal a with [] => la_min a | _ => zlen (la_literal a) end in   (* 1796-1799 *)
+      fd_min_width_acc rest (if (width <? 0) || (w <? width) then w else width)          (* 1800-1802 *)
+  end.
+Definition fd_landmark_min_width (alts : list fdalt) : Z :=
+  let width := fd_min_width_acc alts (-1) in
+  if width <? 0 then 0 else width.                                   (* 1804-1807 *)
+
+(* ---- runner.go:1811 requiredLandmarkLeadingWhitespace ---- *)
+Definition fd_landmark_leading_ws (alts : list fdalt) (ch : Z) : bool :=
+  existsb (fun a => fd_opt_set_in (la_lead_ws a) ch) alts.
+
+(* 1759-1766: the remaining landmarks, each searched from the core start of the previous one plus the
+   least width of that landmark; false = some landmark is missing *)
 Fixpoint fd_rest_landmarks (next_start : Z) (lms : list (list fdalt)) : res bool :=
   match lms with
   | [] => Ok true
   | alts :: rest =>
-      do m <- fd_next_landmark next_start alts ;
+      do m <- fd_next_landmark next_start alts ;                     (* 1760 *)
       match m with
-      | None => Ok false                                             (* 1759-1762 *)
-      | Some lm => fd_rest_landmarks (lm_end lm) rest                (* 1763 *)
+      | None => Ok false                                             (* 1761-1764 *)
+      | Some lm => fd_rest_landmarks (lm_core_start lm + fd_landmark_min_width alts) rest   (* 1765 *)
       end
   end.
 
@@ -593,13 +627,14 @@ Fixpoint fd_chain_loop (fuel : nat) (p loop_set : Z) (first_alts : list fdalt) (
         match first with
         | None => fd_far                                             (* 1751-1754 *)
         | Some first =>
-            do all <- fd_rest_landmarks (lm_end first) rest ;        (* 1756-1764 *)
-            if negb all then fd_far                                  (* 1759-1762 *)
+            do all <- fd_rest_landmarks (lm_core_start first + fd_landmark_min_width first_alts) rest ;   (* 1758-1766 *)
+            if negb all then fd_far                                  (* 1761-1764 *)
             else
-              let candidate := if lm_start first <? p then p else lm_start first in        (* 1766-1769 *)
-              let candidate := fd_walk_back (Z.to_nat (candidate - p)) (set_in loop_set) p candidate in  (* 1770-1772 *)
-              if fd_has_required_length_at candidate then Ok (true, candidate)             (* 1773-1776 *)
-              else fd_chain_loop f p loop_set first_alts rest (lm_core_start first + 1)    (* 1778 *)
+              let candidate := if lm_core_start first <? p then p else lm_core_start first in   (* 1770-1773 *)
+              let candidate := fd_walk_back (Z.to_nat (candidate - p)) (fd_landmark_leading_ws first_alts) p candidate in  (* 1774-1776 *)
+              let candidate := fd_walk_back (Z.to_nat (candidate - p)) (set_in loop_set) p candidate in  (* 1777-1779 *)
+              if fd_has_required_length_at candidate then Ok (true, candidate)             (* 1780-1783 *)
+              else fd_chain_loop f p loop_set first_alts rest (lm_core_start first + 1)    (* 1785 *)
         end
   end.
 Definition fd_find_landmark_chain (p : Z) (c : option fdchain) : res (bool * Z) :=
